@@ -156,11 +156,13 @@ PROPS = {
     "C06": dict(
         modules=[P + "C06", "Ldlm.Pins.C06"],
         theorems=[P + "C06." + t for t in ("reachable_inv", "destroy_releases_partial", "released_once", "late_grant_leaks", "timer_for_dead_hold")]
-                 + ["Ldlm.SessionEnd.step_inv", "Ldlm.SessionEnd.run_clean_back", "Ldlm.Pins.C06.pin_DestroySession", P + "C06.noclear_keeps"],
+                 + ["Ldlm.SessionEnd.step_inv", "Ldlm.SessionEnd.run_clean_back", "Ldlm.Pins.C06.pin_DestroySession", P + "C06.noclear_keeps",
+                    P + "C06.session_end_releases_all", P + "C06.session_end_keeps_others", P + "C06.session_end_exact_reachable",
+                    "Ldlm.Core.clearLoop_releases", "Ldlm.Core.disconnect_keeps_booked"],
         status={P + "C06.destroy_releases_partial": "partial (hypothesis Clean: no grant of the hold in flight when the session entry is deleted)",
                 P + "C06.late_grant_leaks": "refutation witness (K2)", P + "C06.timer_for_dead_hold": "refutation witness (K2, second window)"},
         streams=[CONC, SEQ],
-        level_text="M3b follows one hold of the ending session through every thread that can touch it (its grant in three steps, any number of Unlock threads, the lease callback, the DestroySession thread), one step per call into a manager, for EVERY schedule: if the hold's grant had been answered when the session entry was deleted (Clean), then once nothing is in flight the hold is out of the table, has no lease-timer entry and no bookkeeping entry - whichever of Unlock / lease callback / session end got there first; after the grant the hold only ever leaves the table (unique releaser). The unrestricted statement is false of the code (K2: a grant in flight at D1 leaks the hold; a grant between AddLock and timer Add leaves an armed timer for a dead hold) - kernel-checked witnesses. DestroySession is pinned to its source text. Tied to the code by exploring session end || {TryLock, blocked Lock, Unlock, expiry} of the same session with another session holding, with hold-left / listing / other-session / panic monitors, and by manager-call trace validation: every distinct history of calls into the three managers for each observed hold of the ending session must be a run of M3b with M3b's results (driver linsess).",
+        level_text="M3b follows one hold of the ending session through every thread that can touch it (its grant in three steps, any number of Unlock threads, the lease callback, the DestroySession thread), one step per call into a manager, for EVERY schedule: if the hold's grant had been answered when the session entry was deleted (Clean), then once nothing is in flight the hold is out of the table, has no lease-timer entry and no bookkeeping entry - whichever of Unlock / lease callback / session end got there first; after the grant the hold only ever leaves the table (unique releaser). The unrestricted statement is false of the code (K2: a grant in flight at D1 leaks the hold; a grant between AddLock and timer Add leaves an armed timer for a dead hold) - kernel-checked witnesses. DestroySession is pinned to its source text. Sequential server model M2, every reachable state, clearing on: after a session end no hold the session had is in the lock table any more (neither as key nor queued) and every hold of every other session is still booked and held (session_end_exact_reachable). Tied to the code by exploring session end || {TryLock, blocked Lock, Unlock, expiry} of the same session with another session holding, with hold-left / listing / other-session / panic monitors, and by manager-call trace validation: every distinct history of calls into the three managers for each observed hold of the ending session must be a run of M3b with M3b's results (driver linsess).",
         level_note="PARTIAL by K2 (recorded, not repaired: a repair needs AddLock to refuse ended sessions, an interface change). 'Other sessions untouched' is structural in the model (one hold = one state) and checked on the code by the monitors. With no-clear-on-disconnect DestroySession returns after D1 (M2: Core.destroy). The panic half of D10 (RemoveLock on a deleted entry) was repaired with D2 (fix: e6a606e). gRPC/REST delivery of ConnEnd is exercised by C20/stack streams, not modelled here.",
         technique="Lean 4 proof (inductive invariant over all schedules, backwards-propagating ghost flag for the excluded window) + controlled-interleaving exploration",
         trusted=CONC_TRUST,
@@ -261,10 +263,10 @@ PROPS = {
         theorems=[P + "C11." + t for t in ("order_pinned", "shutdown_keeps_file", "shutdown_waiters_error", "shutdown_then_start_restores", "old_order_loses_holds")]
                  + ["Ldlm.Pins.C11.pin_DestroySession"],
         status={P + "C11.old_order_loses_holds": "refutation witness for the original closer order (D11, repaired)"},
-        streams=[STACK],
+        streams=[STACK, CONC],
         level_text="Over M2 with the closer sequence of cmd/server/main.go AS EXTRACTED from the source on every run: the state file after shutdown equals the file before, every blocked Lock completes with an error and none with a hold, nothing stays blocked, and the next start loads the same table - proved for every state. The original order (network closer before the shutdown flag) is refuted by a kernel-checked witness. Exit status 0, termination within 10 s, no panic and the restored holds are OBSERVED on the real binary (SIGINT/SIGTERM at several workload points, gRPC + REST clients, blocked waiters), not proved.",
-        level_note="PARTIAL by nature: process exit, signal delivery and real-time promptness are outside any model here; interleavings of the shutdown with in-flight requests are sampled by the stack stream only. D11 (holds cleared on graceful shutdown) was found by this check and repaired (fix: 5984d9a). Trusted: Lean kernel, facts extractor (closer order, DestroySession text), hand-written M2.",
-        technique="Lean 4 proof over an interpreter of the extracted closer sequence + end-to-end runs of the real binaries under signals",
+        level_note="PARTIAL by nature: process exit, signal delivery and real-time promptness are outside any model here; interleavings of the shutdown sequence with in-flight requests (Unlock, TryLock) are explored in process on the instrumented server by the conc stream (state file afterwards = acknowledged live holds), and sampled on the real binary by the stack stream. D11 (holds cleared on graceful shutdown) was found by this check and repaired (fix: 5984d9a). Trusted: Lean kernel, facts extractor (closer order, DestroySession text), hand-written M2.",
+        technique="Lean 4 proof over an interpreter of the extracted closer sequence + controlled interleavings shutdown || requests + end-to-end runs of the real binaries under signals",
         trusted=M2_TRUST + STACK_TRUST,
     ),
     "C12": dict(
@@ -336,7 +338,7 @@ ENGINES = [
     dict(name="lean", path="/verif/lean", serves_properties=sorted(PROPS), kind_free_text="Lean 4 project: models (Ldlm/Model), proofs (Ldlm/Proofs), property theorems (Ldlm/Props), compiled line-protocol model driver"),
     dict(name="codec", path="/verif/harness/codec", serves_properties=["C17"], kind_free_text="byte-level differential of store.Write/Read against the Lean codec model"),
     dict(name="stack", path="/verif/harness/stack", serves_properties=["C11", "C14", "C16", "C18"], kind_free_text="end-to-end: real cmd/server + cmd/lock binaries over loopback with gRPC, REST and Go clients, signals, TLS/password matrix"),
-    dict(name="conc", path="/verif/harness/concsrv", serves_properties=["C01", "C02", "C03", "C05", "C06", "C09", "C13"], kind_free_text="controlled interleavings of small concurrent programs on the instrumented real LockServer (tools/instr overlay + verifrt scheduler + DFS/PCT explorer), with model-independent monitors and crash-image snapshots"),
+    dict(name="conc", path="/verif/harness/concsrv", serves_properties=["C01", "C02", "C03", "C05", "C06", "C09", "C11", "C13"], kind_free_text="controlled interleavings of small concurrent programs on the instrumented real LockServer (tools/instr overlay + verifrt scheduler + DFS/PCT explorer), with model-independent monitors and crash-image snapshots"),
     dict(name="rest", path="/verif/harness/restc", serves_properties=["C15", "C20"], kind_free_text="REST gateway in process and in virtual time: model correspondence (TestRestModel vs Lean M4), paired real servers REST vs gRPC (TestRest C15), session life-cycle monitors (TestRest C20), controlled interleavings on the instrumented gateway (TestRestConc)"),
     dict(name="client", path="/verif/harness/clientc", serves_properties=["C19"], kind_free_text="Go client over an in-process recording transport to the real service in virtual time: model correspondence (TestClientModel vs Lean M5: RPC traces, retry table, renewer retry path), monitors and controlled interleavings Unlock/Close vs renew goroutine (TestClient)"),
     dict(name="seq", path="/verif/harness/seq", serves_properties=["C01", "C03", "C04", "C07", "C08", "C10", "C12", "C13", "C18"], kind_free_text="sequential histories in virtual time: real LockServer (testing/synctest) vs Lean model M2 through the line protocol, plus model-independent monitors"),
